@@ -5,6 +5,7 @@ recorded" invariant — across blocks.
 -/
 import DastardV.Lemmas.EmtRun
 import DastardV.Lemmas.Auto
+import DastardV.Lemmas.TrigIdx
 namespace DastardV.Trig
 
 /-- a record specification that `cut` can serve from a buffer of length `L` whose first frame is `first` -/
@@ -53,6 +54,11 @@ theorem ztApply_le {raw : List Nat} {first : Int} {zt : ZT} {ezt : Bool} {j t : 
       simp [hf] at he
     · simp at h
 
+/-- the trigger frame of a specification has room for a record of the CONFIGURED lengths around it
+(what a group-triggered channel with the same buffer will cut at that frame) -/
+def FrameFull (s : EMT) (first L : Int) (sp : Spec) : Prop :=
+  first + s.npre ≤ sp.frame ∧ sp.frame + (s.nsamp - s.npre) ≤ first + L
+
 /-- the "pending edge" invariant inside one call: `u ≤ v`, `v` lies before the scan position, and `v`
 is already recorded (`u = v`), absent (`v = 0`), or its whole record is inside the buffer -/
 structure PendOK (s : EMT) (first L iFirst u v : Int) : Prop where
@@ -68,10 +74,11 @@ theorem emtLoop_safe (raw : List Nat) (first : Int) (zt : ZT) (s : EMT)
       (((raw.length : Int) - 1 - (s.nsamp - s.npre)) + (s.nsamp - s.npre) + 2 - iFirst).toNat ≤ n →
       s.npre ≤ iFirst → (s.enableZT = true → s.npre + 1 ≤ iFirst) →
       PendOK s first raw.length iFirst u v →
-      (∀ sp ∈ acc, SpecOK first raw.length sp) →
+      (∀ sp ∈ acc, SpecOK first raw.length sp ∧ FrameFull s first raw.length sp) →
       ∃ r, emtLoop raw first zt s ((raw.length : Int) - 1 - (s.nsamp - s.npre)) (s.nsamp - s.npre) iFirst t u v acc = some r ∧
         iFirst ≤ r.1 ∧ (raw.length : Int) - (s.nsamp - s.npre) ≤ r.1 ∧
-        PendOK s first raw.length r.1 r.2.2.1 r.2.2.2.1 ∧ (∀ sp ∈ r.2.2.2.2, SpecOK first raw.length sp) := by
+        PendOK s first raw.length r.1 r.2.2.1 r.2.2.2.1 ∧
+        (∀ sp ∈ r.2.2.2.2, SpecOK first raw.length sp ∧ FrameFull s first raw.length sp) := by
   intro n
   induction n with
   | zero =>
@@ -115,7 +122,7 @@ theorem emtLoop_safe (raw : List Nat) (first : Int) (zt : ZT) (s : EMT)
       have hvw : v ≤ x.trig + first := by have := hp.before; omega
       -- the specification emitted now (for the edge v) can be cut
       have hacc' : ∀ sp ∈ (match shouldRecord u v (x.trig + first) s.npre s.nsamp s.mode with
-          | some sp => acc ++ [sp] | none => acc), SpecOK first raw.length sp := by
+          | some sp => acc ++ [sp] | none => acc), SpecOK first raw.length sp ∧ FrameFull s first raw.length sp := by
         cases hrec : shouldRecord u v (x.trig + first) s.npre s.nsamp s.mode with
         | none => simpa using hacc
         | some sp0 =>
@@ -128,7 +135,7 @@ theorem emtLoop_safe (raw : List Nat) (first : Int) (zt : ZT) (s : EMT)
             rcases hp.pend with h0 | h0 | ⟨h0, h0'⟩
             · exact absurd h0 (by omega)
             · exact absurd h0 hu0
-            · exact specOK_of_bounds hb h0 h0'
+            · exact ⟨specOK_of_bounds hb h0 h0', by unfold FrameFull; rw [hb.1]; exact ⟨h0, h0'⟩⟩
       have hp' : PendOK s first raw.length x.nextI v (x.trig + first) :=
         ⟨hvw, by omega, Or.inr (Or.inr ⟨hw_lo, hw_hi⟩)⟩
       obtain ⟨r, hr, hr1, hr2, hr3, hr4⟩ := ih x.nextI u v (x.trig + first) _ (by omega) (by omega)
@@ -162,8 +169,8 @@ theorem cutSpecs_some {c : Chan} : ∀ (sps : List Spec), (∀ sp ∈ sps, SpecO
 /-- the flush specification can be cut too -/
 theorem flush_specOK {s : EMT} {first L iF u v : Int} {acc : List Spec}
     (hnp : 3 ≤ s.npre) (hlt : s.npre < s.nsamp)
-    (hp : PendOK s first L iF u v) (hacc : ∀ sp ∈ acc, SpecOK first L sp) :
-    ∀ sp ∈ (flushUV s.npre s.nsamp s.mode (iF + first) u v acc).2, SpecOK first L sp := by
+    (hp : PendOK s first L iF u v) (hacc : ∀ sp ∈ acc, SpecOK first L sp ∧ FrameFull s first L sp) :
+    ∀ sp ∈ (flushUV s.npre s.nsamp s.mode (iF + first) u v acc).2, SpecOK first L sp ∧ FrameFull s first L sp := by
   unfold flushUV
   split
   · rename_i hc
@@ -179,7 +186,7 @@ theorem flush_specOK {s : EMT} {first L iF u v : Int} {acc : List Spec}
         rcases hp.pend with h0 | h0 | ⟨h0, h0'⟩
         · exact absurd h0 (by omega)
         · exact absurd h0 hu0
-        · exact specOK_of_bounds hb h0 h0'
+        · exact ⟨specOK_of_bounds hb h0 h0', by unfold FrameFull; rw [hb.1]; exact ⟨h0, h0'⟩⟩
   · exact hacc
 
 /-- invariant of an edge-multi channel between blocks (after trimming): either fresh, or running with
@@ -226,7 +233,9 @@ theorem emtSafe_step (c : Chan) (zt : ZT) (hzt : ∀ p, -1 ≤ zt p ∧ zt p ≤
     (seg : List Nat) (segFirst t0 per : Int) (sg : Bool)
     (hcont : (c.emt.next = 0 ∧ 0 ≤ segFirst) ∨ (c.emt.next ≠ 0 ∧ segFirst = c.first + c.buf.length)) :
     ∃ c' recs, triggerData (append c seg segFirst t0 per sg) zt = some (c', recs) ∧ EmtSafe (trim c') ∧
-      (trim c').emt.next ≠ 0 ∧ (trim c').first + (trim c').buf.length = segFirst + seg.length := by
+      (trim c').emt.next ≠ 0 ∧ (trim c').first + (trim c').buf.length = segFirst + seg.length ∧
+      (∀ r ∈ recs, (segFirst - c.buf.length) + c.emt.npre ≤ r.frame ∧
+        r.frame + (c.emt.nsamp - c.emt.npre) ≤ segFirst + seg.length) := by
   obtain ⟨hnp, hlt, hz4, hon, _, hstate⟩ := hs
   generalize hca : append c seg segFirst t0 per sg = ca
   have ca_buf : ca.buf = c.buf ++ seg := by rw [← hca]; rfl
@@ -239,7 +248,8 @@ theorem emtSafe_step (c : Chan) (zt : ZT) (hzt : ∀ p, -1 ≤ zt p ∧ zt p ≤
       SameCfg c.emt s1 ∧ 0 ≤ ca.first ∧
       c.emt.npre ≤ r.1 ∧ (c.emt.enableZT = true → c.emt.npre + 1 ≤ r.1) ∧
       (ca.buf.length : Int) - (c.emt.nsamp - c.emt.npre) ≤ r.1 ∧
-      PendOK c.emt ca.first ca.buf.length r.1 r.2.2.1 r.2.2.2.1 ∧ (∀ sp ∈ r.2.2.2.2, SpecOK ca.first ca.buf.length sp) := by
+      PendOK c.emt ca.first ca.buf.length r.1 r.2.2.1 r.2.2.2.1 ∧
+      (∀ sp ∈ r.2.2.2.2, SpecOK ca.first ca.buf.length sp ∧ FrameFull c.emt ca.first ca.buf.length sp) := by
     rw [ca_emt]
     rcases hstate with ⟨hb, hn0⟩ | ⟨hf0, hnr, hnrz, hpend⟩
     · -- fresh: the reset branch
@@ -275,7 +285,8 @@ theorem emtSafe_step (c : Chan) (zt : ZT) (hzt : ∀ p, -1 ≤ zt p ∧ zt p ≤
   obtain ⟨s1, r, hspec, hcfg, hfirst0, hrn, hrz, hrL, hrp, hracc⟩ := hcall
   obtain ⟨c1, c2, c3, c4, c5, c6⟩ := hcfg
   -- the specifications of this call, including the flush, can all be cut
-  have hspecsOK : ∀ sp ∈ (emtFinish s1 ca.first r).2, SpecOK ca.first ca.buf.length sp := by
+  have hspecsOK : ∀ sp ∈ (emtFinish s1 ca.first r).2, SpecOK ca.first ca.buf.length sp ∧
+      FrameFull c.emt ca.first ca.buf.length sp := by
     simp only [emtFinish]
     rw [c4, c5, c6]
     exact flush_specOK hnp hlt hrp hracc
@@ -284,7 +295,7 @@ theorem emtSafe_step (c : Chan) (zt : ZT) (hzt : ∀ p, -1 ≤ zt p ∧ zt p ≤
   have hemt' : emt' = (emtFinish s1 ca.first r).1 := by rw [hef]
   have hspecs' : specs = (emtFinish s1 ca.first r).2 := by rw [hef]
   rw [hef] at hspec
-  obtain ⟨recs, hrecs⟩ := cutSpecs_some (c := ca) specs (by rw [hspecs']; exact hspecsOK)
+  obtain ⟨recs, hrecs⟩ := cutSpecs_some (c := ca) specs (by rw [hspecs']; exact fun sp h => (hspecsOK sp h).1)
   have hon' : ca.ts.edgeMulti = true := by rw [ca_ts]; exact hon
   have key : ∀ c' : Chan, c'.emt = emt' → c'.ts = ca.ts → c'.first = ca.first → c'.buf = ca.buf → EmtSafe (trim c') ∧
       (trim c').emt.next ≠ 0 ∧ (trim c').first + (trim c').buf.length = segFirst + seg.length := by
@@ -361,6 +372,13 @@ theorem emtSafe_step (c : Chan) (zt : ZT) (hzt : ∀ p, -1 ≤ zt p ∧ zt p ≤
     exact ⟨_, rfl⟩
   obtain ⟨lt, htd⟩ := htd
   obtain ⟨k1, k2, k3⟩ := key ({ ca with emt := emt', lastTrig := lt }) rfl rfl rfl rfl
-  exact ⟨_, _, htd, k1, k2, k3⟩
+  refine ⟨_, _, htd, k1, k2, k3, ?_⟩
+  intro r0 hr0
+  obtain ⟨sp, hsp, hcut⟩ := cutSpecs_mem hrecs r0 hr0
+  have hfr := cut_frame hcut
+  have hff := (hspecsOK sp (by rw [← hspecs']; exact hsp)).2
+  unfold FrameFull at *
+  rw [hfr, show ca.first + (sp.frame - ca.first) = sp.frame by omega]
+  constructor <;> omega
 
 end DastardV.Trig
